@@ -132,6 +132,72 @@ def scenario_sweep(run):
     run.section("scenarios", cases=n, operators=len(ops_table()))
 
 
+class _SrcPiece:
+    def __init__(self, pdf, n):
+        self.pdf, self.n = pdf, n
+
+    def __call__(self, i):
+        k = (len(self.pdf) + self.n - 1) // self.n
+        return self.pdf.iloc[i * k:(i + 1) * k]
+
+    def __dask_tokenize__(self):
+        return ("c04-piece", self.n, tuple(self.pdf.columns))
+
+
+def source_sweep(run):
+    """Column selections absorbed by every kind of data source, with labels that are not in sorted order: every ordered
+    pair / triple of columns and every single column, plain and below an operator, vs pandas on the same data."""
+    import os
+    import shutil
+    import tempfile
+    import dask
+    import pandas as pd
+    import rt
+    cols = ["z", "a", "m", "k"]
+    pdf = pd.DataFrame({c: [100 * (j + 1) + i for i in range(12)] for j, c in enumerate(cols)})
+    tmp = tempfile.mkdtemp(prefix="c04_", dir=common.BUILD)
+    n = 0
+    try:
+        pdf.iloc[:6].to_csv(os.path.join(tmp, "p0.csv"), index=False)
+        pdf.iloc[6:].to_csv(os.path.join(tmp, "p1.csv"), index=False)
+        rt.dx.from_pandas(pdf, npartitions=3).to_parquet(os.path.join(tmp, "pq"))
+        sources = {
+            "from_pandas": lambda: rt.dx.from_pandas(pdf, npartitions=3),
+            "from_array": lambda: rt.dx.from_array(pdf.values, chunksize=5, columns=cols),
+            "from_map": lambda: rt.dx.from_map(_SrcPiece(pdf, 3), [0, 1, 2], meta=pdf.iloc[:0]),
+            "from_delayed": lambda: rt.dx.from_delayed([dask.delayed(_SrcPiece(pdf, 2))(i) for i in (0, 1)], meta=pdf.iloc[:0]),
+            "from_dict": lambda: rt.dx.from_dict({c: list(pdf[c]) for c in cols}, npartitions=2),
+            "read_csv": lambda: rt.dx.read_csv(os.path.join(tmp, "p*.csv")),
+            "read_parquet": lambda: rt.dx.read_parquet(os.path.join(tmp, "pq")),
+            "read_parquet-arrow": lambda: rt.dx.read_parquet(os.path.join(tmp, "pq"), filesystem="arrow"),
+        }
+        sels = [("scalar", c) for c in cols] + [("list", list(p)) for p in itertools.permutations(cols, 2)] + \
+               [("list", list(p)) for p in list(itertools.permutations(cols, 3))[:: (3 if run.tier == "quick" else 1)]] + [("list", list(reversed(cols)))]
+        consumers = {"plain": lambda y, sel: y[sel], "below add": lambda y, sel: (y + 1)[sel], "sum": lambda y, sel: y[sel].sum(),
+                     "two selections": lambda y, sel: y[sel].sum().sum() + y[cols[0]].sum() if isinstance(sel, list) else y[sel].sum() + y[cols[-1]].sum()}
+        for sn, mk in sources.items():
+            for kind, sel in sels:
+                for cn, cf in consumers.items():
+                    n += 1
+                    run.count(("source", sn, str(sel), cn))
+                    exp = cf(pdf, sel)
+                    got = try_(lambda: cf(mk(), sel))
+                    case = {"kind": "source", "source": sn, "select": sel, "consumer": cn}
+                    if got[0] == "raise":
+                        run.violation("selecting %s from a %s source (%s) cannot be built: %s" % (sel, sn, cn, got[1]), case)
+                        continue
+                    opt = try_(lambda: got[1].compute())
+                    if opt[0] == "raise":
+                        run.violation("selecting %s from a %s source (%s) fails: %s" % (sel, sn, cn, opt[1]), case)
+                        continue
+                    a, b = strip_index(canon(opt[1], True)), strip_index(canon(exp, True))
+                    if a != b:
+                        run.violation("selecting %s from a %s source (%s) gives %s, pandas %s" % (sel, sn, cn, _short(a), _short(b)), case)
+    finally:
+        shutil.rmtree(tmp, ignore_errors=True)
+    run.section("sources", cases=n, sources=sorted(sources))
+
+
 def widening(run, n):
     """Adding columns the query never mentions cannot change its result."""
     import random
@@ -195,5 +261,6 @@ def run(run):
     run.proofs("PropC04.v")
     quick = run.tier == "quick"
     scenario_sweep(run)
+    source_sweep(run)
     progcheck.run_programs(run, {"C01"}, 200 if quick else 5000, profile="l1", own={"C01"})
     widening(run, 120 if quick else 3000)
